@@ -770,7 +770,8 @@ class NF(object):
         return False
 
     def loop(self, st, p0):
-        k = self.ordinal.get(id(st), 0)
+        # numbered in the order the path meets them, not by their place in the text
+        k = 1 + sum(1 for e_ in p0.effects if e_[0] in ("for", "while"))
         is_while = isinstance(st, ast.While)
         names = sorted(_assigned([st]))
         carried = set(nm for nm in names if self._first_use_is_load(st, nm) or nm in self.final_names or nm in self.live_after)
